@@ -320,7 +320,8 @@ impl Gen {
                 if holders.is_empty() { return (format!("ST FindGroup {g}"), "FindGroup"); }
                 let (other, id) = *self.r.pick(&holders); let g = (other + 1 + self.r.below(3)) % 4;
                 (format!("ST SaveGroup {g} {id} 1 1 - 0 - - - 0 0 0"), "SaveGroup-collide") }
-            9..=11 => (format!("ST FindGroup {g}"), "FindGroup"),
+            9..=10 => (format!("ST FindGroup {g}"), "FindGroup"),
+            11 => ("ST Reopen".into(), "Reopen"),
             12..=13 => (format!("ST FindByNostr {}", self.r.below(17)), "FindByNostr"),
             14 => ("ST AllGroups".into(), "AllGroups"),
             15 => (format!("ST Admins {g}"), "Admins"),
@@ -385,11 +386,42 @@ impl Gen {
     }
 }
 
-struct Both { mem: MdkMemoryStorage, sql: MdkSqliteStorage, _dir: tempfile::TempDir }
+struct Both { mem: MdkMemoryStorage, sql: MdkSqliteStorage, dir: tempfile::TempDir }
 fn fresh() -> Both {
     let d = tempfile::Builder::new().prefix("st").tempdir_in("/verif/.cache/tmp").unwrap();
-    Both { mem: MdkMemoryStorage::new(), sql: MdkSqliteStorage::new_unencrypted(d.path().join("s.db")).unwrap(), _dir: d }
+    Both { mem: MdkMemoryStorage::new(), sql: MdkSqliteStorage::new_unencrypted(d.path().join("s.db")).unwrap(), dir: d }
 }
+/// Everything `observe` sees plus the listings (all groups, each group's messages in both orders, pending welcomes).
+fn observe_all<S: MdkStorageProvider>(s: &S, m: &Maps) -> BTreeMap<String, String> {
+    let mut d = observe(s, m);
+    d.insert("L:groups".into(), exec(s, m, "ST AllGroups"));
+    d.insert("L:pending".into(), exec(s, m, "ST PendingWelcomes 1000 0"));
+    for g in 0..5u64 {
+        for so in 0..2u64 { d.insert(format!("L:msgs{g}_{so}"), exec(s, m, &format!("ST Messages {g} 10000 0 {so}"))); d.insert(format!("L:last{g}_{so}"), exec(s, m, &format!("ST LastMessage {g} {so}"))); }
+        d.insert(format!("L:admins{g}"), exec(s, m, &format!("ST Admins {g}")));
+        d.insert(format!("L:retry{g}"), exec(s, m, &format!("ST FindFailedRetry {g}")));
+        d.insert(format!("L:invm{g}"), exec(s, m, &format!("ST FindInvalidatedMsgs {g}")));
+        d.insert(format!("L:invp{g}"), exec(s, m, &format!("ST FindInvalidatedPmsgs {g}")));
+    }
+    d
+}
+/// C11 at the storage layer: close the SQLite store (clean shutdown) and open the same file again; nothing observable
+/// through the storage API may differ.  The memory backend is not persistent and is left alone.
+fn reopen(st: &mut Both, m: &Maps, fails: &mut Vec<(&'static str, String)>) -> String {
+    let before = guarded_map(|| observe_all(&st.sql, m));
+    let path = st.dir.path().join("s.db");
+    let tmp = match MdkSqliteStorage::new_unencrypted(st.dir.path().join("idle.db")) { Ok(t) => t, Err(_) => return "err".into() };
+    drop(std::mem::replace(&mut st.sql, tmp));
+    match catch_unwind(AssertUnwindSafe(|| MdkSqliteStorage::new_unencrypted(&path))) {
+        Ok(Ok(s)) => st.sql = s,
+        Ok(Err(e)) => { fails.push(("C11", format!("[sqlite] the database cannot be opened again after a clean close: {e}"))); return "err".into(); }
+        Err(_) => { fails.push(("C11", "[sqlite] opening the database again panicked".into())); return "PANIC".into(); }
+    }
+    let after = guarded_map(|| observe_all(&st.sql, m));
+    for (k, v) in &before { if after.get(k) != Some(v) { fails.push(("C11", format!("[sqlite] closing and reopening the database changed {k}: {v} -> {}", after.get(k).cloned().unwrap_or("?".into())))); break; } }
+    "ok".into()
+}
+fn guarded_map<F: FnOnce() -> BTreeMap<String, String>>(f: F) -> BTreeMap<String, String> { catch_unwind(AssertUnwindSafe(f)).unwrap_or_else(|_| BTreeMap::from([("PANIC".to_string(), "PANIC".to_string())])) }
 fn guarded<F: FnOnce() -> String>(f: F) -> String { catch_unwind(AssertUnwindSafe(f)).unwrap_or("PANIC".into()) }
 
 /// Oracles evaluated around one call on one backend (C09 frame / exactness, C18 listing).
@@ -496,6 +528,12 @@ fn main() {
     for (i, (line, class)) in lines.iter().enumerate() {
         if line == "ST RESET" { st = fresh(); copies_mem.clear(); copies_sql.clear(); have_snap = false; seq_start = i; run.case("RESET", false, line.clone(), "RESET".into()); continue; }
         let mut fails: Vec<(&'static str, String)> = vec![];
+        if line == "ST Reopen" {
+            let r = reopen(&mut st, &m, &mut fails);
+            let seq = lines[seq_start..=i].iter().map(|(l, _)| l.clone()).collect::<Vec<_>>().join(" || ");
+            for (p, d) in fails { run.oracle_fail(p, "", d, seq.clone()); }
+            run.case(class, have_snap, line.clone(), r); continue;
+        }
         let rm = run_with_oracles(&st.mem, &m, "memory", line, &mut copies_mem, &mut fails);
         let rs = run_with_oracles(&st.sql, &m, "sqlite", line, &mut copies_sql, &mut fails);
         let seq = || lines[seq_start..=i].iter().map(|(l, _)| l.clone()).collect::<Vec<_>>().join(" || ");
